@@ -560,4 +560,25 @@ Section BalloonProofs.
       rewrite Hw. unfold Balloon.history_verify. cbn [a_history a_actual a_query]. reflexivity.
     - injection Hqc as <-. reflexivity.
   Qed.
+
+  (* ------------------------------------------------------------------ C05 (balloon level) *)
+  Theorem bulk_consecutive st evs new snaps st' :
+    reach st evs -> add_bulk st new = Some (snaps, st') ->
+    map (fun s => (s_event D E s, s_version D E s)) snaps =
+      map (fun k => (nth k new e0, N.of_nat (length evs + k))) (seq 0 (length new)) /\
+    bver st' = N.of_nat (length (evs ++ new)).
+  Proof.
+    intros Hr Hadd. destruct (snapshots_canonical st evs new snaps st' Hr Hadd) as (Hs & _ & Hv).
+    split; [|exact Hv]. rewrite Hs, map_map. reflexivity.
+  Qed.
+
+  Theorem current_version_reported st evs d w q :
+    reach st evs -> N.of_nat (length evs) < W64 ->
+    map_get V (bmap st) (kbits d) = Some w -> vnum w <= q -> q < bver st ->
+    exists a, query_c st d q = QOk D E V a /\ a_current _ _ _ a = N.of_nat (length evs) - 1.
+  Proof.
+    intros Hr Hlen Hget Hwq Hq.
+    destruct (membership_answer_verifies st evs d w q Hr Hlen Hget Hwq Hq) as (a & Ha & _ & _ & _ & Hc & _).
+    exists a. split; [exact Ha|]. rewrite Hc, (inv_version _ _ (reach_inv _ _ Hr)). reflexivity.
+  Qed.
 End BalloonProofs.
